@@ -345,6 +345,29 @@ def rowOfFixed : Mgr → Row
   | .transfer => ⟨.transfer, false, transferFixedBeh⟩
   | m => rowOf m
 
+/-- Which claim predicates each transcribed `handleStanza` body calls (`isXyz(` names, `requests<T>` = a type given
+to `handleIqRequests<…>`), in order of first appearance.  The translator regenerates the same table from the
+source; Props proves the two equal, so a handler that starts looking at a new kind of payload stops the build. -/
+def modelledPredicates : List (String × List String) := [
+  ("QXmppArchiveManager", ["isArchiveChatIq", "isArchiveListIq", "isArchivePrefIq"]),
+  ("QXmppBlockingManager", ["requests<BlockIq>", "requests<UnblockIq>"]),
+  ("QXmppBookmarkManager", ["isPrivateStorageIq"]),
+  ("QXmppCarbonManager", []),
+  ("QXmppCarbonManagerV2", []),
+  ("QXmppDiscoveryManager", ["requests<QXmppDiscoveryIq>", "isDiscoveryIq"]),
+  ("QXmppEntityTimeManager", ["requests<QXmppEntityTimeIq>", "isEntityTimeIq"]),
+  ("QXmppMamManager", ["isMamResultIq"]),
+  ("QXmppMucManager", ["isMucAdminIq", "isMucOwnerIq"]),
+  ("QXmppPubSubManager", []),
+  ("QXmppRegistrationManager", ["isStreamFeatures", "isRegisterIq"]),
+  ("QXmppRosterManager", ["isRosterIq"]),
+  ("QXmppRpcManager", ["isRpcInvokeIq", "isRpcResponseIq", "isRpcErrorIq"]),
+  ("QXmppTransferManager", ["isIbbCloseIq", "isIbbDataIq", "isIbbOpenIq", "isByteStreamIq", "isStreamInitiationIq"]),
+  ("QXmppUploadRequestManager", ["isHttpUploadSlotIq", "isHttpUploadRequestIq"]),
+  ("QXmppVCardManager", ["isVCard"]),
+  ("QXmppVersionManager", ["requests<QXmppVersionIq>", "isVersionIq"])
+]
+
 /-- `QXmppClient(BasicExtensions)`, in registration order (QXmppClient.cpp:345-349) -/
 def defaultSet : List Row := [.roster, .vcard, .version, .entityTime, .discovery].map rowOf
 
@@ -429,6 +452,10 @@ def goodTF (t : IqType) (f : From) (b : Beh) : Bool :=
 def Beh.goodFor (s : Stanza) (b : Beh) : Bool := goodTF s.type s.frm b
 
 def Row.good (r : Row) (s : Stanza) : Bool := (r.run s).goodFor s
+
+/-- the property text for all bundled managers (today's handlers) and all stanzas -/
+def FullC08 : Prop :=
+  ∀ (ms : List Mgr) (s : Stanza), answeredRight s (dispatch (ms.map rowOf) s).sent = true
 
 /-- the cells where today's handler is NOT good (exact, see Props: `defect_exact`) -/
 def defectCell : Mgr → Stanza → Bool
